@@ -98,5 +98,8 @@ Step ==
 
 Spec == Init /\ [][Step]_vars
 
-Report == IF l = Len(Ev) + 1 THEN PrintT(<<"DONE", tid, flags>>) ELSE TRUE
+Report == IF l = Len(Ev) + 1
+            THEN /\ \A f \in flags : PrintT(<<"F", tid, f>>)
+                 /\ PrintT(<<"DONE", tid>>)
+            ELSE TRUE
 =============================================================================
